@@ -281,6 +281,11 @@ class CollisionArray:
                     raise CollisionLoadError(
                         f"CollisionArray error: {filename} not found."
                     )
+                except KeyError as err:
+                    # h5py signals a missing group, attribute or dataset by KeyError
+                    raise CollisionLoadError(
+                        f"CollisionArray error: {filename} lacks expected content: {err}"
+                    ) from err
 
         collisionFileArray = collisionFileArray.reshape(
             (
